@@ -289,7 +289,7 @@ package statefulset
 //@ func identityMatches
 //@   requires set != nil && pod != nil
 //@   pure
-//@   ensures [C06] result == (ordOf(pod) >= 0 && set.Name == parentName(pod.Name) && pod.Name == sprintf("%s-%d", set.Name, ordOf(pod)) && pod.Namespace == set.Namespace && ite(pod.Labels != nil && pod.Labels.has(PodNameLabel), pod.Labels[PodNameLabel], "") == pod.Name)
+//@   ensures [C02,C06] result == (ordOf(pod) >= 0 && set.Name == parentName(pod.Name) && pod.Name == sprintf("%s-%d", set.Name, ordOf(pod)) && pod.Namespace == set.Namespace && ite(pod.Labels != nil && pod.Labels.has(PodNameLabel), pod.Labels[PodNameLabel], "") == pod.Name)
 // volsDistinct(p): the pod's volume names are pairwise different (API validation of pod specs)
 //@ spec func volsDistinct(p *v1.Pod) bool = forall a int, b int :: {p.Spec.Volumes[a].Name, p.Spec.Volumes[b].Name} 0 <= a && a < b && b < len(p.Spec.Volumes) ==> p.Spec.Volumes[a].Name != p.Spec.Volumes[b].Name
 //@ func storageMatches
